@@ -14,6 +14,15 @@ use std::collections::HashSet;
 
 verus! {
 
+// std specifications vstd does not carry (sound: they say what the std functions do)
+pub assume_specification<T, F: FnOnce(T) -> bool>[ Option::<T>::is_none_or ](o: Option<T>, f: F) -> (r: bool)
+    requires o matches Some(v) ==> f.requires((v,)),
+    ensures o is None ==> r, o matches Some(v) ==> f.ensures((v,), r);
+pub assume_specification<T, F: FnOnce(T) -> bool>[ Option::<T>::is_some_and ](o: Option<T>, f: F) -> (r: bool)
+    requires o matches Some(v) ==> f.requires((v,)),
+    ensures o is None ==> !r, o matches Some(v) ==> f.ensures((v,), r);
+
+
 pub struct TupleError { pub code: u8 }
 pub type RowId = u64;
 
@@ -34,6 +43,9 @@ impl TupleReader {
     #[verifier::external_body]
     pub fn parse_for_snapshot(&self, bytes: &[u8], snapshot: &Snapshot) -> (r: Result<Option<TupleLayout>, TupleError>)
         ensures r matches Ok(o) ==> (o is Some <==> visible(snapshot, bytes@)) { unimplemented!() }
+    // the newest stored version, whoever may see it
+    #[verifier::external_body]
+    pub fn parse_last_version(&self, bytes: &[u8]) -> (r: Result<TupleLayout, TupleError>) { unimplemented!() }
 }
 
 pub struct UInt64(pub u64);
@@ -58,6 +70,12 @@ impl TupleRef {
     pub uninterp spec fn src(&self) -> Seq<u8>;
     #[verifier::external_body]
     pub fn new(bytes: &[u8], layout: TupleLayout) -> (r: TupleRef) ensures r.src() == bytes@ { unimplemented!() }
+    #[verifier::external_body]
+    pub fn is_tuple_deleted(&self) -> bool { unimplemented!() }
+    #[verifier::external_body]
+    pub fn xmin(&self) -> u64 { unimplemented!() }
+    #[verifier::external_body]
+    pub fn xmax(&self) -> Option<u64> { unimplemented!() }
     // value 0 of an index entry is the row id
     #[verifier::external_body]
     pub fn value_with(&self, idx: usize, schema: &Schema) -> (r: Result<DataTypeRef, TupleError>)
